@@ -76,6 +76,36 @@ func (c *Ctx) plyMeshSweep() {
 	}
 }
 
+// textured meshes (ply_reads_spec_mesh_tex_bytes / …_tex_ascii_bytes): every format × texcoord count type × item type once per
+// run; declaration order, extra list, index-list types and names at random; per-corner coordinates tagged (distinct, exact in
+// float32) so that a coordinate on the wrong corner is visible
+func (c *Ctx) plyMeshTexSweep() {
+	for _, format := range []string{"le", "be", "ascii"} {
+		for _, tct := range []string{"uchar", "int", "uint"} {
+			for _, tit := range []string{"float", "double"} {
+				s := plySpec{format: format, crlf: c.Rng.Intn(3) == 0}
+				nv := 4 + c.Rng.Intn(5)
+				c.plyMeshSweepVerts(&s, nv)
+				fe := &plySpecFaceElem{short: c.Rng.Intn(2) == 0, cntTy: []string{"uchar", "int", "uint"}[c.Rng.Intn(3)],
+					idxTy: []string{"int", "uint"}[c.Rng.Intn(2)], idxAlias: c.Rng.Intn(2) == 0, extra: c.Rng.Intn(3),
+					hasTex: true, texCnt: tct, texItem: tit, texFirst: c.Rng.Intn(2) == 0}
+				tag := 0
+				for i := 1 + c.Rng.Intn(4); i > 0; i-- {
+					fc := c.plyMeshSweepFace(nv, 3+c.Rng.Intn(2), fe.extra)
+					for j := 0; j < 2*len(fc.verts); j++ {
+						tag++
+						fc.uv = append(fc.uv, float64(tag)/64+float64(c.Rng.Intn(4)))
+					}
+					fe.faces = append(fe.faces, fc)
+				}
+				s.face = fe
+				c.Note(fmt.Sprintf("mesh-sweep:tex:%s:count=%s:item=%s", format, tct, tit))
+				c.plySpecCaseEP(s, "c08.holds.meaning", false)
+			}
+		}
+	}
+}
+
 func (c *Ctx) plyMeshSweepFace(nv, k, extra int) plySpecFace {
 	fc := plySpecFace{}
 	for j := 0; j < k; j++ {
